@@ -7,6 +7,7 @@ import (
 	"fmt"
 	"net"
 	"strconv"
+	"strings"
 	"time"
 
 	"github.com/pion/stun/v3"
@@ -373,6 +374,9 @@ func (s *codecSys) Check(e Edge, obs []Obs) []Mismatch {
 			ms = append(ms, Mismatch{"codec", fmt.Sprintf("%s: decoded %v bytes, spec exactly the %v declared", desc, o["data"], want["data"])})
 		}
 	case "attr":
+		if e, _ := o["err"].(string); strings.HasPrefix(e, "PANIC") {
+			ms = append(ms, Mismatch{"codec", fmt.Sprintf("%s: GetFrom panics instead of returning an error (%v)", desc, e)})
+		}
 		if b(o, "ok") != b(want, "ok") {
 			ms = append(ms, Mismatch{"codec", fmt.Sprintf("%s: GetFrom ok=%v (err %v, value %v), spec ok=%v", desc, o["ok"], o["err"], o["got"], want["ok"])})
 		}
